@@ -244,18 +244,25 @@ NumericFailure == {"LinAlgError"}
 (* / unimodal tolerance is 1e-6 relative to the largest entry, whatever the units of the data.        *)
 (* (TLC cannot test "x \in Int" on a string, so non-finite factors are flagged, not encoded.)         *)
 Scale == 10000000           \* 10^7
-Tol   == 10                 \* 10^-6
+Tol   == 10                 \* 10^-6: float64 arithmetic on O(1..10) numbers
+(* float32 results: one rounding is 6e-8 relative, a column sum / norm of up to 4 entries of size <= 9 *)
+(* (the largest radius) accumulates a few 1e-6 absolute -- observed 1.4e-6 on an l1 radius of 8 --     *)
+(* so float32 runs are judged with 1e-4, still far below any real infeasibility (>= 1e-2 in every      *)
+(* seeded or found defect).                                                                            *)
+Tol32 == 1000
+TolOf(dtype) == IF dtype = "float32" THEN Tol32 ELSE Tol
 
 AbsI(x) == IF x < 0 THEN -x ELSE x
 Cols(F) == {F.cols[c] : c \in 1..Len(F.cols)}
 
 MeasOK(kind, F) == F.finite
 
-NonDecreasing(d) == \A j \in 1..Len(d) : d[j] >= -Tol
-NonIncreasing(d) == \A j \in 1..Len(d) : d[j] <= Tol
+NonDecreasing(d, tol) == \A j \in 1..Len(d) : d[j] >= -tol
+NonIncreasing(d, tol) == \A j \in 1..Len(d) : d[j] <= tol
 \* sign pattern of the first differences is  +* -*  : up to some peak position, down afterwards
-UnimodalDiffs(d) == \E p \in 0..Len(d) : /\ \A j \in 1..p : d[j] >= -Tol
-                                         /\ \A j \in (p + 1)..Len(d) : d[j] <= Tol
+UnimodalDiffsT(d, tol) == \E p \in 0..Len(d) : /\ \A j \in 1..p : d[j] >= -tol
+                                               /\ \A j \in (p + 1)..Len(d) : d[j] <= tol
+UnimodalDiffs(d) == UnimodalDiffsT(d, Tol)
 
 (* Where the documentation leaves the scope open, BOTH documented readings are accepted:          *)
 (*  - hard / normalised sparsity and max-normalisation are described for "the factor" / "the     *)
@@ -263,21 +270,22 @@ UnimodalDiffs(d) == \E p \in 0..Len(d) : /\ \A j \in 1..p : d[j] >= -Tol
 (*  - monotonicity: constrained_parafac says "monotonically decreasing", monotonicity_prox        *)
 (*    documents increasing as its default: a factor is feasible if all its columns are            *)
 (*    non-decreasing or all are non-increasing.                                                   *)
-Feasible(kind, par, F) ==
+FeasibleT(kind, par, F, tol) ==
     CASE kind = "non_negative"  -> \A c \in Cols(F) : c.minsign >= 0
-      [] kind = "simplex"       -> \A c \in Cols(F) : c.minsign >= 0 /\ AbsI(c.sum - par * Scale) <= Tol
-      [] kind = "monotonicity"  -> \/ \A c \in Cols(F) : NonDecreasing(c.diffs)
-                                   \/ \A c \in Cols(F) : NonIncreasing(c.diffs)
-      [] kind = "unimodality"   -> \A c \in Cols(F) : UnimodalDiffs(c.diffs)
+      [] kind = "simplex"       -> \A c \in Cols(F) : c.minsign >= 0 /\ AbsI(c.sum - par * Scale) <= tol
+      [] kind = "monotonicity"  -> \/ \A c \in Cols(F) : NonDecreasing(c.diffs, tol)
+                                   \/ \A c \in Cols(F) : NonIncreasing(c.diffs, tol)
+      [] kind = "unimodality"   -> \A c \in Cols(F) : UnimodalDiffsT(c.diffs, tol)
       [] kind = "hard_sparsity" -> \/ F.nnz <= par
                                    \/ \A c \in Cols(F) : c.nnz <= par
       [] kind = "normalized_sparsity" ->
-                                   \/ F.nnz <= par /\ AbsI(F.fro - Scale) <= Tol
-                                   \/ \A c \in Cols(F) : c.nnz <= par /\ AbsI(c.l2 - Scale) <= Tol
-      [] kind = "normalize"     -> \/ AbsI(F.maxabs - Scale) <= Tol
-                                   \/ \A c \in Cols(F) : AbsI(c.maxabs - Scale) <= Tol
-      [] kind = "soft_sparsity" -> \A c \in Cols(F) : c.l1 <= par * Scale + Tol
+                                   \/ F.nnz <= par /\ AbsI(F.fro - Scale) <= tol
+                                   \/ \A c \in Cols(F) : c.nnz <= par /\ AbsI(c.l2 - Scale) <= tol
+      [] kind = "normalize"     -> \/ AbsI(F.maxabs - Scale) <= tol
+                                   \/ \A c \in Cols(F) : AbsI(c.maxabs - Scale) <= tol
+      [] kind = "soft_sparsity" -> \A c \in Cols(F) : c.l1 <= par * Scale + tol
       [] OTHER -> TRUE          \* penalties: no hard obligation
+Feasible(kind, par, F) == FeasibleT(kind, par, F, Tol)
 
 ClauseOf(kind) ==
     CASE kind = "non_negative" -> "NonNegative"  [] kind = "simplex" -> "Simplex"
